@@ -17,7 +17,7 @@ def canon(x):
 # ---------------------------------------------------------------------------
 # (A) edges from TLC
 
-def gen_edges(ctx, family, maxtok, maxlen, maxlit, workers=8, timeout=1500):
+def gen_edges(ctx, family, maxtok, maxlen, maxlit, maxfuel=1, workers=8, timeout=900):
     cfg = '''SPECIFICATION Spec
 CHECK_DEADLOCK FALSE
 CONSTANTS
@@ -25,14 +25,18 @@ CONSTANTS
   MaxTok = %d
   MaxLen = %d
   MaxLit = %d
+  MaxFuel = %d
 INVARIANTS TypeOK GenSound
-''' % (family, maxtok, maxlen, maxlit)
+''' % (family, maxtok, maxlen, maxlit, maxfuel)
     code, out = ctx.tlc('MCWorld', cfg, workers=workers, timeout=timeout, name='MC_' + family)
     edges = []
+    seen = set()
     stats = {}
     for line in out.splitlines():
         if line.startswith('"{'):
-            edges.append(json.loads(json.loads(line)))
+            if line not in seen:           # the same edge may be generated for several fuel values
+                seen.add(line)
+                edges.append(json.loads(json.loads(line)))
         elif 'distinct states found' in line and 'states generated' in line and 'Progress' not in line:
             nums = [int(x.replace(',', '')) for x in line.replace(',', '').split() if x.isdigit()]
             stats = {'generated': nums[0], 'distinct': nums[1]}
